@@ -15,9 +15,9 @@ GROUP = dict(
                      },
     extern_re=[r'ConcurrentBoundedQueue<.*>::(pop_n|push_n|try_pop_n|capacity|size|pop|push|try_pop)', r'MoveOnlyFunction<.*>::operator'],
     roots=[P + '::pop', P + '::try_pop', P + '::push', P + '::Deleter::operator()', P + '::Deleter::operator=', P + '::Deleter::Deleter',
-           {'lambda_in': P + '::pop', 'file': 'object_pool.hpp', 'line': 38}, {'lambda_in': P + '::pop', 'file': 'object_pool.hpp', 'line': 41},
-           {'lambda_in': P + '::pop', 'file': 'object_pool.hpp', 'line': 49}, {'lambda_in': P + '::try_pop', 'file': 'object_pool.hpp', 'line': 61},
-           {'lambda_in': P + '::push', 'file': 'object_pool.hpp', 'line': 76}, {'lambda_in': P + '::push', 'file': 'object_pool.hpp', 'line': 79}],
+           {'lambda_in': P + '::pop', 'ordinal': 1}, {'lambda_in': P + '::pop', 'ordinal': 2},
+           {'lambda_in': P + '::pop', 'ordinal': 3}, {'lambda_in': P + '::try_pop', 'ordinal': 1},
+           {'lambda_in': P + '::push', 'sig': 'unique_ptr<babylon_vf::Obj> &&', 'ordinal': 1}, {'lambda_in': P + '::push', 'sig': 'unique_ptr<babylon_vf::Obj> &&', 'ordinal': 2}],
     reviewed_compiler_conditionals=['src/babylon/concurrent/bounded_queue.h:#if !__clang__ && BABYLON_GCC_VERSION < 50000'],
     assumptions=['std::unique_ptr semantics are the stubs in spec.h (trusted library contract); its deleter is moved/run with the real Deleter functions',
                  'ConcurrentBoundedQueue pop/try_pop/pop_n(1)/push/push_n(1) contract stubs (the queue itself: C01); blocking of pop on an empty strict pool is liveness, not decided',
